@@ -107,6 +107,7 @@ contract(CONN + '.update_settings', props=['C11', 'C12', 'C02', 'C19', 'C29'],
              ('not-applied-before-the-ack', 'all(implies(old(setting_has(%s, k)), setting_current(%s, k) == old(setting_current(%s, k))) for k in old(%s._settings))' % (LS, LS, LS, LS), ['C11']),
              ('each-new-value-queued-once', 'all(len(%s._settings[k]) == (old(len(%s._settings[k])) if (k in old(%s._settings)) else 1) + 1 for k in new_settings)' % (LS, LS, LS), ['C11']),
              ('other-keys-untouched', 'all(implies(not (k in new_settings), len(%s._settings[k]) == old(len(%s._settings[k]))) for k in old(%s._settings))' % (LS, LS, LS), ['C11']),
+             ('settings-stay-well-formed', 'SETTINGS_OK(%s) and SETTINGS_OK(%s)' % (LS, RS), ['C11', 'C12']),
              ('derived-state-untouched', 'self.max_inbound_frame_size == old(self.max_inbound_frame_size) and self.decoder.max_header_list_size == old(self.decoder.max_header_list_size) and self.decoder.max_allowed_table_size == old(self.decoder.max_allowed_table_size)', ['C11']),
              ('not-closed', 'cst != C_CLOSED', ['C19']),
              ('GI', 'GI(self)')],
